@@ -10,7 +10,7 @@
    str      := '-' (empty) | codepoint ('.' codepoint)*
    path     := var ('.' field)*
    operand  := 'L'lit | 'P'path
-   meth     := get:f | set:f | inc:f | twice:f | with:f | me | bump:f | getb:f | setb:f | push:f | poke:f:g | dup(:f)*
+   meth     := get:f | set:f | inc:f | twice:f | with:f | me | bump:f | getb:f | setb:f | push:f | poke:f:g | dup(:f)* | neg:f | sum:f | pos:f | not:f | cat:f
    rmode    := var (bind) | 'p' (print) | '_' (drop) *)
 open Objects_model
 
@@ -52,6 +52,8 @@ let meth s = match String.split_on_char ':' s with
   | ["bump"; f] -> MBump (var f) | ["getb"; f] -> MGetBare (var f) | ["setb"; f] -> MSetBare (var f)
   | ["push"; f] -> MPush (var f) | ["poke"; f; g] -> MPoke (var f, var g)
   | "dup" :: fs -> MDup (List.map var fs)
+  | ["neg"; f] -> MRo (RNeg, var f) | ["sum"; f] -> MRo (RSum, var f) | ["pos"; f] -> MRo (RPos, var f)
+  | ["not"; f] -> MRo (RNot, var f) | ["cat"; f] -> MRo (RCat, var f)
   | _ -> failwith ("meth " ^ s)
 let rmode s = if s = "_" then RDrop else if s = "p" then RPrint else RBind (var s)
 let flag s = (s = "1")
